@@ -73,11 +73,6 @@ static uint64_t raw_hash(int kind, int id) {
         default: return (uint64_t)(id + 1) << 61;                          /* only high bits: home 0 for every size */
     }
 }
-static uint64_t code_for(int kind, int id) {
-    if (id == 5) return 42; /* the library's fixed code for the NULL key */
-    uint64_t h = raw_hash(kind, id);
-    return h ? h : 1;
-}
 #define DEF_HASH(n, kind)                                                                                        \
     static uint64_t n(const void *k) { return raw_hash(kind, ((const struct kobj *)k)->id); }
 DEF_HASH(hf_zero, H_ZERO)
